@@ -96,8 +96,10 @@ def run_one(prop, tier, seed):
                 except Exception as e:
                     r = core.crash_to_agg(e, "replay")
                     if isinstance(r, tuple):
-                        raise
-                    sigs = None      # the library crashed again while replaying: reproduced
+                        # the REPLAY helper itself failed (e.g. it does not know this kind of case description): the violation
+                        # found by the exhaustive run stands, only the isolated re-execution is unavailable
+                        print(f"[{prop}] note: isolated replay unavailable for {sig}: {type(e).__name__}")
+                    sigs = None      # (otherwise: the library crashed again while replaying - reproduced)
                 if sigs is not None and sig not in sigs:
                     flaky.append(sig)
                     break
